@@ -519,7 +519,13 @@ func (cs *c02Case) oracle(t vkT, env *c02Env, res *c02Result, action string) str
 			okLine := false
 			why := "no such file"
 			for _, i := range vols {
-				content, ok := snaps[i][filepath.Join(m[1][:3], m[1])]
+				var content []byte
+				ok := false
+				for name, b := range snaps[i] {
+					if filepath.Base(name) == m[1] {
+						content, ok = b, true
+					}
+				}
 				if !ok {
 					continue
 				}
